@@ -84,7 +84,7 @@ Representable(m, ls, c) ==
   /\ \A i \in Idx(ls.labels) : ls.labels[i] \notin NonUtf8Vals
 Sample(m, ls, c) ==
   [name |-> ExportName(m.name), labels |-> PromLabels(m, ls, c), type |-> PromType(m.kind),
-   val |-> Val(m, ls),
+   val |-> Val(m, ls), dtype |-> m.type,
    buckets |-> IF m.kind = "Histogram" THEN {<<Bound(m, i), Cum(m, ls, i)>> : i \in 1..NB(m)} ELSE {},
    count |-> IF m.kind = "Histogram" THEN Len(ls.obs) ELSE 0,
    ts |-> IF c.emitTs THEN ls.ts ELSE 0]
@@ -110,7 +110,7 @@ AllLS(s) == {p \in Idx(s) \X (1..MaxLsets) : p[2] <= Len(s[p[1]].lsets)}
 Scalar(kind) == kind \in {"Counter", "Gauge", "Timer"}
 Rec(m, ls, role, le, n) ==
   [metric |-> m.name, prog |-> m.prog, labels |-> Pairs(m, ls), role |-> role, le |-> le, n |-> n,
-   val |-> Val(m, ls), ts |-> ls.ts, kind |-> m.kind]
+   val |-> Val(m, ls), dtype |-> m.type, ts |-> ls.ts, kind |-> m.kind]
 
 \* JSON: every metric, every label set, with names, keys, label values in key order, datum
 JsonRec(m, ls) == [metric |-> m.name, prog |-> m.prog, kind |-> m.kind, type |-> m.type, keys |-> m.keys,
@@ -124,7 +124,7 @@ VarzIdeal(s, c) ==
   {[metric |-> s[p[1]].name,
     labels |-> Pairs(s[p[1]], s[p[1]].lsets[p[2]]) \cup (IF c.omitProg THEN {} ELSE {<<"prog", s[p[1]].prog>>})
                \cup {<<"instance", c.host>>},
-    val |-> Val(s[p[1]], s[p[1]].lsets[p[2]])] : p \in AllLS(s)}
+    val |-> Val(s[p[1]], s[p[1]].lsets[p[2]]), dtype |-> s[p[1]].type] : p \in AllLS(s)}
 \* graphite: counters, gauges, timers: a value line; histograms: a line per bucket, a count line, a value line
 GraphiteLS(m, ls, src) ==
   IF Scalar(m.kind) THEN {Rec(m, ls, "value", 0, 0)}
@@ -157,7 +157,8 @@ BoundLists == {BTable[n] : n \in BoundNames}
 Pick(S) == IF Random /\ S # {} THEN {RandomElement(S)} ELSE S
 KeySeqs == UNION {{ks \in [1..n -> KeyNames] : \A i, j \in 1..n : i # j => ks[i] # ks[j]} : n \in 0..MaxKeys}
 TokensOf(type) == CASE type = "Int" -> IntToks [] type = "Float" -> FloatToks [] OTHER -> {"str"}
-ObsSeqs == UNION {[1..n -> ObsVals] : n \in 0..MaxObs}
+\* a histogram label set exists because something was observed: at least one observation
+ObsSeqs == UNION {[1..n -> ObsVals] : n \in 1..MaxObs}
 
 \* the premise of C13 / the rules of Store.Add: one exported name = one store name, one kind, one key list, and
 \* series are told apart by the program label
